@@ -3,12 +3,13 @@ import Driver.Expr
 import Driver.C03
 import Driver.C06
 import Driver.C05
+import Driver.C18
 
 open Drv
 
 def step (line : String) : String :=
   let toks := (line.trimAscii.toString.splitOn " ").filter (· ≠ "")
-  match (stepC01 toks <|> stepExpr toks <|> stepC03 toks <|> stepC06 toks <|> stepC05 toks) with
+  match (stepC01 toks <|> stepExpr toks <|> stepC03 toks <|> stepC06 toks <|> stepC05 toks <|> stepC18 toks) with
   | some out => out
   | none => "bad-op"
 
